@@ -1,2 +1,4 @@
+pub mod h2;
+pub mod hpack_data;
 pub mod pkt;
 pub mod tls;
